@@ -193,6 +193,93 @@ def campaign(seed, n, switches=frozenset()):
     return stats
 
 
+@st.composite
+def chain_cases(draw, switches):
+    """Long chains at one precedence level, written without parentheses: 8-28 operands joined by + and -, by * and /, by AND / OR, or sums of
+    short products - in an assignment, a PRINT item, an IF comparison, a subscript or a function argument; string concatenations likewise."""
+    kind = draw(st.sampled_from(["sum", "sum", "product", "sum_of_products", "logic", "concat"]))
+    n = draw(st.integers(8, 28))
+    leaves = [["var", v] for v in ("I", "J", "K", "N")] + [["num", str(k), k] for k in (1, 2, 3, 5, 7)]
+    leaf = lambda: list(draw(st.sampled_from(leaves)))
+    if kind == "concat":
+        e = ["str", "A0"]
+        for i in range(1, n):
+            e = ["scat", e, draw(st.sampled_from([["str", "B%d" % i], ["svar", "S"], ["fn", "CHR$", [["num", str(65 + i % 26), 65 + i % 26]]]]))]
+        stmt = ["let", ["svar", "T"], e, False]
+        prog = [[10, [["let", ["svar", "S"], ["str", "xy"], False]]], [30, [stmt]], [40, [["print", [["e", ["svar", "T"]]]]]]]
+        return {"prog": prog, "paren_unary": "paren_unary" in switches, "options": {"initialize_vars": True, "default_str_storage": 255},
+                "_meta": {"nontrivial": True, "classes": ["chain_concat", "chain_len_%d" % (n // 8 * 8)], "excluded": {}}}
+    if kind == "sum":
+        e = leaf()
+        for _ in range(n - 1):
+            e = ["bin", draw(st.sampled_from(["+", "-"])), e, leaf()]
+    elif kind == "product":
+        e = leaf()
+        for _ in range(n - 1):
+            e = ["bin", draw(st.sampled_from(["*", "*", "/"])), e, draw(st.sampled_from([["num", "1", 1], ["num", "2", 2], ["var", "K"], ["num", "3", 3]]))]
+    elif kind == "sum_of_products":
+        def term():
+            t = leaf()
+            for _ in range(draw(st.integers(0, 2))):
+                t = ["bin", "*", t, leaf()]
+            return t
+        e = term()
+        for _ in range(n - 1):
+            e = ["bin", draw(st.sampled_from(["+", "-"])), e, term()]
+    else:
+        op = draw(st.sampled_from(["AND", "OR"]))
+        e = leaf()
+        for _ in range(n - 1):
+            e = ["bin", op if draw(st.integers(0, 5)) else ("OR" if op == "AND" else "AND"), e, leaf()]
+        # AND binds tighter than OR: rebuild a mixed chain as an OR of AND-runs so that the flat text means the same tree
+        flat = []
+        def fl(x):
+            if x[0] == "bin" and x[1] in ("AND", "OR"):
+                fl(x[2]); flat.append(x[1]); fl(x[3])
+            else:
+                flat.append(x)
+        fl(e)
+        runs, cur = [], flat[0]
+        for i in range(1, len(flat), 2):
+            if flat[i] == "AND":
+                cur = ["bin", "AND", cur, flat[i + 1]]
+            else:
+                runs.append(cur); cur = flat[i + 1]
+        runs.append(cur)
+        e = runs[0]
+        for r in runs[1:]:
+            e = ["bin", "OR", e, r]
+    ctx = draw(st.sampled_from(["assign", "print", "if", "arg"]))
+    init = [["let", ["var", v], cbgen.lit_expr(x), False] for v, x in zip(("I", "J", "K", "N"), draw(st.permutations([7, 3, 2, 5])))]
+    if ctx == "assign":
+        body = [["let", ["var", "X"], e, False]]
+    elif ctx == "print":
+        body = [["print", [["e", e]]]]
+    elif ctx == "if":
+        body = [["if", ["cmp", draw(st.sampled_from([">", "<=", "="])), e, ["num", "4", 4]], ["stmts", [["let", ["var", "X"], ["num", "9", 9], False]]], None]]
+    else:
+        body = [["let", ["var", "X"], ["bin", "+", ["fn", "ABS", [e]], ["num", "1", 1]], False]]
+    prog = [[10, init], [30, body], [40, [["print", [["e", ["var", "X"]]]]]]]
+    return full.add_layout(draw, {"prog": prog, "paren_unary": "paren_unary" in switches,
+                                  "_meta": {"nontrivial": True, "classes": ["chain_" + kind, "chain_ctx_" + ctx, "chain_len_%d" % (n // 8 * 8)], "excluded": {}}},
+                           switches, key="source_override", one_in=4)
+
+
+def chains(seed, n, switches=frozenset()):
+    stats = Stats()
+
+    def body(case):
+        meta = case.pop("_meta")
+        case = dict(case)
+        check_case(case)
+        triv = case.get("_trivial")
+        classes = list(meta["classes"]) + (["trivial_" + triv.split(":")[0].split(" ")[0]] if triv else [])
+        stats.case(key=case["prog"], nontrivial=not triv, classes=classes, sample={"source": case.get("_source", "")})
+
+    core.run_hypothesis(body, chain_cases(switches), seed=seed, max_examples=n, stats=stats)
+    return stats
+
+
 ENUM_OPS = ["+", "-", "*", "/", "^", "AND", "OR"]
 ENUM_LEAVES = [["var", "I"], ["var", "J"], ["var", "K"], ["var", "N"]]
 
@@ -311,10 +398,12 @@ def plan(tier, seed, switches):
     if tier == "quick":
         return [("campaign", [dict(seed=seed * 100 + k, n=400, switches=switches) for k in range(4)]),
                 ("enumerate_trees", [dict(part=k, nparts=4, switches=switches) for k in range(4)]),
-                ("enumerate_unary", [dict(part=k, nparts=4, max_ops=2, switches=switches) for k in range(4)])]
+                ("enumerate_unary", [dict(part=k, nparts=4, max_ops=2, switches=switches) for k in range(4)]),
+                ("chains", [dict(seed=seed * 100 + 50 + k, n=100, switches=switches) for k in range(2)])]
     return [("campaign", [dict(seed=seed * 1000 + k, n=4000, switches=switches) for k in range(16)]),
             ("enumerate_trees", [dict(part=k, nparts=8, switches=switches) for k in range(8)]),
-            ("enumerate_unary", [dict(part=k, nparts=16, max_ops=3, switches=switches) for k in range(16)])]
+            ("enumerate_unary", [dict(part=k, nparts=16, max_ops=3, switches=switches) for k in range(16)]),
+            ("chains", [dict(seed=seed * 1000 + 500 + k, n=1500, switches=switches) for k in range(8)])]
 
 
 def evidence_extra(stats):
